@@ -2,7 +2,7 @@
    (DESIGN 5.3) and the correctness of the model's verdict table. *)
 From Coq Require Import List ZArith Bool Lia Arith.
 Import ListNotations.
-From Arrai Require Import Sys.Conc Proofs.ConcP Proofs.ConcImportP Proofs.ConcImportLiveP.
+From Arrai Require Import Sys.Conc Proofs.ConcP Proofs.ConcImportP Proofs.ConcImportLiveP Proofs.ConcStdinP.
 
 Lemma where_race_free_q : forall q perr N s, q_where_err_capture_race q = false ->
   reachable (where_progs q perr) N s -> ~ race (where_progs q perr) idloc N s.
@@ -64,7 +64,11 @@ Definition proto_ok (q : Quirks) (p : proto) : Prop :=
       forall nm N s, reachable (p_join q nm) N s ->
         ~ race (p_join q nm) idloc N s /\
         forall t, halted (p_join q nm) t s -> result s t = nm t
-  | MTupleNoOnce | MRelposUnlockedRead => True
+  | PStdinCache =>
+      forall K N s, reachable (fun _ => p_stdin K) N s ->
+        ~ race (fun _ => p_stdin K) idloc N s /\
+        forall t, halted (fun _ => p_stdin K) t s -> result s t = stdin_serial K
+  | MTupleNoOnce | MRelposUnlockedRead | MStdinNarrowLock => True
   end.
 
 Definition proto_broken (q : Quirks) (p : proto) : Prop :=
@@ -94,6 +98,7 @@ Proof.
     intros; eapply import_serial_results; eauto.
   - rewrite orb_false_r in Hg. intros nm N s Hr. split; [now apply join_fixed_race_free|].
     intros; eapply join_fixed_result; eauto.
+  - intros; split; [now apply stdin_race_free | intros; eapply stdin_serial_results; eauto].
 Qed.
 
 (* and whenever the table says "broken" there is a concrete 2-thread witness *)
